@@ -29,6 +29,9 @@ def run(ctx):
     ctx.import_prop("C10", only=lambda o: o.key.startswith("ref_from_ptr"), label="declared region")
     # header-tag iterator: same transition premises as C03 with H = HeaderTagHeader
     c03.check_next(ctx, F, "multiboot2_header::tags::HeaderTagHeader", 4, "HeaderTagHeader", rule_prefix="T")
+    # every other Iterator method of the shared tag iterator is std's default over next() (an `nth` override walks on its own)
+    from . import iters as IT_
+    IT_.check_overrides(ctx, F, "T5", "TagIter")
     it = F.insts.get("multiboot2_header::header::Multiboot2Header::<'_>::iter")
     if it is None:
         ctx.fail("ANCHOR", "iter", "Multiboot2Header::iter exists", "", "missing")
